@@ -25,7 +25,9 @@ files exist and what they contain).  A case line is
         reuse   the context an earlier core.Start returned from; that earlier call's configuration is given by the same
                 tokens with the prefix P (Ps:<key>:<hex>, PF:<kind>:...), and the output line ends in pre=<rc>/<valid>
 
-String values that start with "@/" name files of the probe's scratch directory.
+String values that start with "@/" name files of the probe's scratch directory.  "@/shipped-<name>" is a copy of the
+tree's own config/<name> (the notification templates Burrow ships; the probe reads them from $VERIF_REPO_CONFIG), and
+"@/helpers.tmpl" is a template that calls every documented template helper function.
 """
 
 # ---------------------------------------------------------------------------------------------------------------
@@ -67,8 +69,12 @@ def mail_ok(host, port):    # ValidateHostList([]string{fmt.Sprintf("%s:%v", hos
 
 
 # file kinds: "tmpl" parses, "badtmpl" exists but does not parse, "pem" certificate/key material, "junk" readable non-PEM
+SHIPPED = ["default-http-post.tmpl", "default-http-delete.tmpl", "default-email.tmpl", "default-slack-post.tmpl",
+           "default-slack-delete.tmpl"]      # /repo/config/*.tmpl: a valid notifier may point at any of them
 BASE_FILES = {"@/open.tmpl": "tmpl", "@/close.tmpl": "tmpl", "@/mail.tmpl": "tmpl", "@/bad.tmpl": "badtmpl",
+              "@/helpers.tmpl": "tmpl",
               "@/cert.pem": "pem", "@/key.pem": "pem", "@/ca.pem": "pem", "@/junk.txt": "junk"}
+BASE_FILES.update({"@/shipped-" + n: "tmpl" for n in SHIPPED})
 
 
 def hx(s):
@@ -217,8 +223,8 @@ NOTIFY = CORE + TLS + [
     ("s", "notifier.n1.url-open", "http://127.0.0.1:1/open"),
     ("s", "notifier.n1.url-close", "http://127.0.0.1:1/close"),
     ("b", "notifier.n1.send-close", True),
-    ("s", "notifier.n1.template-open", "@/open.tmpl"),
-    ("s", "notifier.n1.template-close", "@/close.tmpl"),
+    ("s", "notifier.n1.template-open", "@/shipped-default-http-post.tmpl"),      # calls the helper jsonencoder
+    ("s", "notifier.n1.template-close", "@/shipped-default-http-delete.tmpl"),
     ("s", "notifier.n1.group-denylist", "^x"),
     ("s", "notifier.n1.extra-ca", "@/ca.pem"),
     ("s", "notifier.n2.class-name", "email"),
@@ -229,7 +235,7 @@ NOTIFY = CORE + TLS + [
     ("s", "notifier.n2.auth-type", "plain"),
     ("s", "notifier.n2.username", "u"),
     ("s", "notifier.n2.password", "p"),
-    ("s", "notifier.n2.template-open", "@/mail.tmpl"),
+    ("s", "notifier.n2.template-open", "@/shipped-default-email.tmpl"),
     ("s", "notifier.n3.class-name", "null"),
     ("s", "notifier.n3.template-open", "@/open.tmpl"),
 ]
@@ -260,7 +266,8 @@ BASES = {
     # id: (ops, description, expected implementation output)
     "core": (CORE, "explicit storage/evaluator/httpserver only; no notifier, cluster or consumer",
              "RET 0 valid=true configured=cluster,consumer,evaluator,httpserver,storage started=cluster,consumer,evaluator,httpserver,storage"),
-    "notify": (NOTIFY, "zookeeper + http/email/null notifiers + TLS listener; no cluster or consumer",
+    "notify": (NOTIFY, "zookeeper + http/email/null notifiers (http and email on the shipped config/*.tmpl, null on a "
+                       "helper-free template) + TLS listener; no cluster or consumer",
                "RET 0 valid=true configured=cluster,consumer,evaluator,httpserver,notifier,storage,zookeeper "
                "started=cluster,consumer,evaluator,httpserver,notifier,storage,zookeeper"),
     "kafka": (KAFKA, "default storage/evaluator/httpserver; client profile with TLS+SASL, one cluster and a kafka and a "
@@ -635,6 +642,73 @@ edit("consumer-zk-profile-ignored", "preserving", False, ["kafka"], [("s", "cons
 edit("consumer-zk-unknown-class-and-cluster", "class-name", True, ["kafka"],
      [("s", "consumer.z1.class-name", "storm"), ("s", "consumer.z1.cluster", "nosuch")],
      "core/internal/consumer/coordinator.go:71-72,87-89", "unknown consumer class and unknown cluster on the same module")
+
+# templates: the shipped files and the documented helper functions on every notifier class ------------------------------
+_TP = "core/internal/notifier/coordinator.go:158-162,212-228; core/internal/notifier/helpers.go:51-61"
+edit("notifier-http-helper-free-templates", "preserving", False, ["notify"],
+     [("s", "notifier.n1.template-open", "@/open.tmpl"), ("s", "notifier.n1.template-close", "@/close.tmpl")],
+     _TP, "http notifier on templates that call no helper function")
+edit("notifier-http-slack-templates", "preserving", False, ["notify"],
+     [("s", "notifier.n1.template-open", "@/shipped-default-slack-post.tmpl"),
+      ("s", "notifier.n1.template-close", "@/shipped-default-slack-delete.tmpl")],
+     _TP, "http notifier on the shipped slack templates")
+edit("notifier-http-helpers-close", "preserving", False, ["notify"], [("s", "notifier.n1.template-close", "@/helpers.tmpl")],
+     _TP, "http notifier whose template-close calls every documented helper function")
+edit("notifier-email-helper-free-template", "preserving", False, ["notify"], [("s", "notifier.n2.template-open", "@/mail.tmpl")],
+     _TP, "email notifier on a template that calls no helper function")
+edit("notifier-email-helpers-template", "preserving", False, ["notify"], [("s", "notifier.n2.template-open", "@/helpers.tmpl")],
+     _TP, "email notifier whose template calls every documented helper function")
+edit("notifier-email-shipped-http-post", "preserving", False, ["notify"],
+     [("s", "notifier.n2.template-open", "@/shipped-default-http-post.tmpl")],
+     _TP, "email notifier on the shipped http-post template (jsonencoder)")
+edit("notifier-null-shipped-template", "preserving", False, ["notify"],
+     [("s", "notifier.n3.template-open", "@/shipped-default-http-post.tmpl")],
+     _TP, "null notifier on the shipped http-post template (jsonencoder)")
+edit("notifier-null-helpers-template", "preserving", False, ["notify"], [("s", "notifier.n3.template-open", "@/helpers.tmpl")],
+     _TP, "null notifier whose template calls every documented helper function")
+edit("notifier-null-send-close-shipped", "preserving", False, ["notify"],
+     [("b", "notifier.n3.send-close", True), ("s", "notifier.n3.template-close", "@/shipped-default-http-delete.tmpl")],
+     _TP, "null notifier with send-close on the shipped http-delete template")
+
+# a reference while the section it points into does not exist AT ALL (no [client-profile.*] / [cluster.*] / [tls.*] / [sasl.*]) --
+_PR = "core/internal/helpers/sarama.go:67-76; core/internal/helpers/validation.go (IsConfiguredEntry)"
+edit("profiles-section-removed", "reference", True, ["kafka"], [("delprefix", "client-profile.")],
+     _PR, "no client-profile section at all, but the cluster and the kafka consumer still name p1")
+edit("cluster-unknown-profile-no-section", "reference", True, ["kafka"],
+     [("delprefix", "client-profile."), ("s", "cluster.c1.client-profile", "nosuch"), ("del", "consumer.k1.client-profile")],
+     _PR, "no client-profile section at all; only the cluster names a profile")
+edit("consumer-unknown-profile-no-section", "reference", True, ["kafka"],
+     [("delprefix", "client-profile."), ("del", "cluster.c1.client-profile"), ("s", "consumer.k1.client-profile", "nosuch")],
+     _PR, "no client-profile section at all; only the kafka consumer names a profile (the cluster ran on the defaults first)")
+edit("consumer-only-unknown-profile-no-section", "reference", True, ["kafka"],
+     [("delprefix", "client-profile."), ("del", "cluster.c1.client-profile"), ("delprefix", "consumer.z1."),
+      ("s", "consumer.k1.client-profile", "p1")],
+     _PR, "no client-profile section at all; the only consumer names the profile p1 that used to exist")
+edit("no-profiles-no-references", "preserving", False, ["kafka"],
+     [("delprefix", "client-profile."), ("del", "cluster.c1.client-profile"), ("del", "consumer.k1.client-profile")],
+     _PR, "no client-profile section and no reference: everything runs on the default profile")
+edit("cluster-section-removed", "reference", True, ["kafka"], [("delprefix", "cluster.")],
+     "core/internal/consumer/coordinator.go:87-89", "no cluster section at all, but both consumers name c1")
+edit("consumer-kafka-only-no-cluster-section", "reference", True, ["kafka"], [("delprefix", "cluster."), ("delprefix", "consumer.z1.")],
+     "core/internal/consumer/coordinator.go:87-89; core/internal/consumer/kafka_client.go:97-100",
+     "no cluster section at all; the only consumer (class kafka) names c1")
+edit("consumer-zk-only-no-cluster-section", "reference", True, ["kafka"], [("delprefix", "cluster."), ("delprefix", "consumer.k1.")],
+     "core/internal/consumer/coordinator.go:87-89", "no cluster section at all; the only consumer (class kafka_zk) names c1")
+edit("consumers-and-clusters-removed", "preserving", False, ["kafka"], [("delprefix", "cluster."), ("delprefix", "consumer.")],
+     "core/internal/consumer/coordinator.go:84-95", "neither clusters nor consumers")
+edit("tls-section-removed", "tls", None, ["notify", "kafka"], [("delprefix", "tls.")],
+     "core/internal/httpserver/coordinator.go:92-112; core/internal/helpers/sarama.go:83-113",
+     "no tls section at all while a listener (refused: no certificate/key) or a client profile (TLS without CA or client "
+     "certificate: accepted) names t1")
+edit("listener-tls-no-tls-section", "tls", True, ["core", "notify", "kafka"],
+     [("delprefix", "tls."), ("s", "httpserver.h1.address", "127.0.0.1:0"), ("s", "httpserver.h1.tls", "t1")],
+     "core/internal/httpserver/coordinator.go:92-112", "no tls section at all; a listener names the TLS profile t1")
+edit("sasl-section-removed", "preserving", False, ["kafka"], [("delprefix", "sasl.")],
+     "core/internal/helpers/sarama.go:116-135", "no sasl section at all while the client profile names s1 (never validated at configure time)")
+edit("zk-tls-no-tls-section", "start-time", False, ["notify"],
+     [("delprefix", "tls."), ("del", "httpserver.h2.tls"), ("s", "zookeeper.tls", "t1")],
+     "core/internal/helpers/zookeeper.go:65-69; core/internal/zookeeper/coordinator.go:85-89",
+     "no tls section at all; zookeeper.tls names t1: the (empty) CA file cannot be read when the coordinator starts")
 
 EDITS = {e["id"]: e for e in E}
 assert len(EDITS) == len(E)
